@@ -182,3 +182,38 @@ def incumbents(fn):
             continue
         upd = [a for a in assigned.get(best, []) if any(x is a for x in walk(loop))]
         yield {"node": n, "best": best, "best_name": names.get(best, "?"), "saved": sorted(names[v] for v in saved), "updated": bool(upd), "evidence": evidence}
+
+
+def make_rule(rid, desc, scope, floor, what):
+    """rule: every running extremum (fold with a max/min closure) in the functions selected by `scope` starts from the
+    identity element of its operation or from data"""
+    from .core import RuleResult
+    from .facts import fn_key, fn_loc
+
+    def rule(ctx):
+        res = RuleResult(rid, desc)
+        F = ctx.facts()
+        n = 0
+        for fn in F.all_fns():
+            if not scope(fn):
+                continue
+            key = fn_key(fn)
+            i = 0
+            for node, op, kind, text, w in sites(fn):
+                i += 1
+                v = verdict(op, kind)
+                if v is None:
+                    continue
+                n += 1
+                inst = "%s : running %s #%d %s" % (key, op, i, w)
+                res.instance(inst)
+                if v:
+                    res.ok()
+                    res.sample({"site": inst, "start": text})
+                else:
+                    res.violate("%s : extremum-start:%s#%d" % (key, op, i), "a running %s starts from `%s`, which is not the identity element of %s: when every element lies on the other side of it (all log-probabilities are negative, `min_positive_value` is positive) the result is the start value, not the extremum of the data" % (op, text, op), fn_loc(fn, node["ln"]))
+        if n < floor:
+            res.missing_anchor("%s (found %d)" % (what, n))
+        return res.finish(floor)
+    rule.__name__ = "rule_extrema"
+    return rule
